@@ -38,13 +38,13 @@ def plan(tier):
         I += _batches("rank4", [_mat(4, ls) for ls in [(3, 2, 2, 3, 2, 3), (3, 2, 2, 3, 2, 4), (4, 2, 2, 3, 2, 3), (3, 3, 2, 2, 3, 3), (0, 2, 2, 3, 2, 0), (3, 2, 3, 3, 2, 3), (2, 2, 2, 2, 2, 2), (3, 2, 2, 0, 2, 3)]], 6, per=2, weight=10, timeout_s=600)
     else:
         I += _batches("rank2", family(2, [2, 3, 4, 5, 6, 7, 8, 12, 0]), 12, per=3)
-        I += _batches("rank3{2..7,inf}", family(3, [2, 3, 4, 5, 6, 7, 0]), 8, per=8, weight=10, timeout_s=2400)
-        I += _batches("rank3-long", [_mat(3, ls) for ls in [(2, 3, 7), (3, 3, 4), (2, 4, 5), (3, 3, 3), (2, 3, 0), (0, 0, 0), (2, 3, 5), (7, 7, 7)]], 10, per=1, weight=40, timeout_s=2400)
+        I += _batches("rank3{2..7,inf}", family(3, [2, 3, 4, 5, 6, 7, 0]), 8, per=8, weight=10, timeout_s=1500)
+        I += _batches("rank3-long", [_mat(3, ls) for ls in [(2, 3, 7), (3, 3, 4), (2, 4, 5), (3, 3, 3), (2, 3, 0), (0, 0, 0), (2, 3, 5), (7, 7, 7)]], 10, per=1, weight=40, timeout_s=1500)
         import random
         rnd = random.Random(7)
         r4 = family(4, [2, 3, 4, 0])
-        I += _batches("rank4{2,3,4,inf}", [r4[i] for i in sorted(rnd.sample(range(len(r4)), 240))], 6, per=6, weight=20, timeout_s=2400)
-        I += _batches("rank5", [_mat(5, ls) for ls in RANK5], 5, per=1, weight=40, timeout_s=2400)
+        I += _batches("rank4{2,3,4,inf}", [r4[i] for i in sorted(rnd.sample(range(len(r4)), 240))], 6, per=6, weight=20, timeout_s=1500)
+        I += _batches("rank5", [_mat(5, ls) for ls in RANK5], 5, per=1, weight=40, timeout_s=1500)
     return dict(
         instances=I,
         explanation=("bounded model checking (z3): for each Coxeter matrix of the family (a configuration, enumerated) the REAL CoxeterGroup.automaton "
